@@ -113,3 +113,74 @@ pub fn soundness(orig: &BTreeMap<String, Vec<u8>>, r: &Repaired) -> Option<(Stri
 pub fn recovered(orig: &BTreeMap<String, Vec<u8>>, r: &Repaired) -> Vec<usize> {
     orig.keys().map(|n| r.files.get(n).map(|f| f.data.len()).unwrap_or(0)).collect()
 }
+
+// ---------------------------------------------------------------- the same repair through the mlar binary
+
+/// What `mlar repair` produced for one input: exit status and, when an output archive was written and is
+/// readable, its files.
+#[derive(Clone, Debug)]
+pub struct CliRepair {
+    pub success: bool,
+    pub files: Option<BTreeMap<String, Vec<u8>>>,
+    pub stderr_tail: String,
+}
+
+/// Writes the DER private key of key index 0 into `dir` (name `key.der`).
+pub fn write_key0(dir: &std::path::Path) {
+    let mut der = vec![0x30u8, 0x2e, 0x02, 0x01, 0x00, 0x30, 0x05, 0x06, 0x03, 0x2b, 0x65, 0x6e, 0x04, 0x22, 0x04, 0x20];
+    der.extend_from_slice(&crate::keys::secret(0).to_bytes());
+    let _ = std::fs::write(dir.join("key.der"), &der);
+}
+
+/// `mlar repair -l -i in.mla -o out.mla [-k key.der] [--allow-unauthenticated-data]` on `input`.
+pub fn cli_repair(exe: &std::path::Path, dir: &std::path::Path, input: &[u8], encrypted: bool, unauth: bool) -> CliRepair {
+    let _ = std::fs::write(dir.join("in.mla"), input);
+    let _ = std::fs::remove_file(dir.join("out.mla"));
+    let mut args: Vec<String> = vec!["repair".into(), "-l".into(), "-i".into(), "in.mla".into(), "-o".into(), "out.mla".into()];
+    if encrypted {
+        args.extend(["-k".to_string(), "key.der".to_string()]);
+    }
+    if unauth {
+        args.push("--allow-unauthenticated-data".into());
+    }
+    let o = crate::cli::run(exe, dir, &args, None);
+    let files = std::fs::read(dir.join("out.mla")).ok().and_then(|b| match guard(|| prog::read_all(&b, &[])) {
+        Ok(Ok(f)) => Some(f.into_iter().map(|(n, r)| (n, r.data)).collect()),
+        _ => None,
+    });
+    let e = String::from_utf8_lossy(&o.stderr);
+    CliRepair { success: o.status.success(), files, stderr_tail: e.chars().rev().take(200).collect::<Vec<_>>().into_iter().rev().collect() }
+}
+
+/// Differential oracle: `mlar repair` (default mode = authenticated only, or with
+/// --allow-unauthenticated-data) against the library repair of the same bytes in the same mode.
+/// None = they agree (same files, same bytes; both refuse; or the library refuses and the tool fails).
+pub fn cli_repair_disagrees(exe: &std::path::Path, dir: &std::path::Path, input: &[u8], encrypted: bool, unauth: bool) -> Option<String> {
+    let lib = repair_eval(input, &[0], unauth);
+    let cli = cli_repair(exe, dir, input, encrypted, unauth);
+    match lib {
+        RepairEval::Done(r) => {
+            let want: BTreeMap<String, Vec<u8>> = r.files.into_iter().map(|(n, f)| (n, f.data)).collect();
+            match (&cli.files, cli.success) {
+                (Some(got), true) if *got == want => None,
+                (Some(got), ok) => Some(format!(
+                    "library repair recovers {:?}, mlar repair (exit ok: {ok}) wrote {:?}; stderr ..{}",
+                    want.iter().map(|(n, d)| (prog::short_name(n), d.len())).collect::<Vec<_>>(),
+                    got.iter().map(|(n, d)| (prog::short_name(n), d.len())).collect::<Vec<_>>(),
+                    cli.stderr_tail
+                )),
+                (None, ok) => Some(format!("library repair recovers {} file(s) but mlar repair (exit ok: {ok}) left no readable output; stderr ..{}", want.len(), cli.stderr_tail)),
+            }
+        }
+        // the library refuses (header incomplete, ...): the tool must not claim success with content
+        RepairEval::OpenErr(_) | RepairEval::ConvertErr(_) => {
+            if cli.success && cli.files.as_ref().map(|f| !f.is_empty()).unwrap_or(false) {
+                Some("the library refuses this input but mlar repair exits 0 with files in its output".to_string())
+            } else {
+                None
+            }
+        }
+        // judged by the library-level check itself
+        RepairEval::Panic(_) | RepairEval::OutputUnreadable(_) => None,
+    }
+}
